@@ -1,7 +1,7 @@
 #!/bin/bash
 # re-confirms every seeded change against the current /repo HEAD (after a fix commit changed the tree)
 cd /verif
-for s in $(ls seeded | grep -v RESULTS); do
+for s in $(ls seeded | grep -v "RESULTS\|^_"); do
   r=$(tools/confirm_seed.sh ${s%-*} /verif/seeded/$s $s 2>&1 | tail -1)
   echo "$r"
 done
